@@ -60,3 +60,51 @@ theorem toMatrix_mul (A Y B : Mat 𝕜) (I K R : Nat)
   rw [← h i i.2 r r.2, sumRange_eq, ← Fin.sum_univ_eq_sum_range (fun a => A.get i a * Y.get a r) K]
 
 end Pyttb.CpAls
+
+namespace Pyttb.CpAls
+section bridge
+variable {𝕜 : Type} [Field 𝕜] [LinearOrder 𝕜] [IsStrictOrderedRing 𝕜]
+
+/-- The factor of mode `n` with the column weights multiplied back in: `U_n · diag(weights)`. -/
+def scaledFactor (st : State 𝕜) (n I rank : Nat) : Mat 𝕜 :=
+  tab I rank fun i a => (st.U.getD n []).get i a * st.weights.getD a 0
+
+/-- The normal equations of a mode update with the coefficient matrix written in terms of the
+factors after the update. -/
+theorem modeUpdate_normal_eq_after {D : Data 𝕜} {S : Services 𝕜} {o : NumOps 𝕜} (ho : o.Lawful)
+    (hS : SolveContract S) {rank it last n : Nat} {st st' : State 𝕜}
+    (h : modeUpdate D S o rank it last n st = .ok st')
+    (hU : ShapeOK D.shape rank st.U) (hG : GramOK rank st) (hn : n < D.shape.length)
+    (hY : allZero o (coef st.UtU D.shape.length rank n) = false)
+    (hw : ∀ r < rank, st'.weights.getD r 0 ≠ 0) :
+    ∀ i < D.shape.getD n 0, ∀ r < rank,
+      sumRange rank (fun a => ((st'.U.getD n []).get i a * st'.weights.getD a 0) *
+        prodOver ((List.range D.shape.length).filter (· != n))
+          fun m => (gram (st'.U.getD m []) rank).get a r) = (D.mttkrp st.U n).get i r := by
+  intro i hi r hr
+  rw [← modeUpdate_normal_eq ho hS h (by rw [hU.1]; exact hn) hY hw i hi r hr]
+  unfold sumRange
+  congr 1
+  refine List.map_congr_left fun a ha => ?_
+  rw [coef_get_after h hG hU.1 (List.mem_range.1 ha) hr]
+
+/-- Matrix form of the normal equations. -/
+theorem modeUpdate_normal_eq_matrix {D : Data 𝕜} {S : Services 𝕜} {o : NumOps 𝕜} (ho : o.Lawful)
+    (hS : SolveContract S) {rank it last n : Nat} {st st' : State 𝕜}
+    (h : modeUpdate D S o rank it last n st = .ok st')
+    (hn : n < st.U.length)
+    (hY : allZero o (coef st.UtU D.shape.length rank n) = false)
+    (hw : ∀ r < rank, st'.weights.getD r 0 ≠ 0) :
+    toMatrix (scaledFactor st' n (D.shape.getD n 0) rank) (D.shape.getD n 0) rank *
+        toMatrix (coef st.UtU D.shape.length rank n) rank rank =
+      toMatrix (D.mttkrp st.U n) (D.shape.getD n 0) rank := by
+  apply toMatrix_mul
+  intro i hi r hr
+  rw [← modeUpdate_normal_eq ho hS h hn hY hw i hi r hr]
+  unfold sumRange
+  congr 1
+  refine List.map_congr_left fun a ha => ?_
+  rw [scaledFactor, get_tab _ _ _ hi (List.mem_range.1 ha)]
+
+end bridge
+end Pyttb.CpAls
